@@ -47,7 +47,12 @@ def build(tier):
 
 
 def run_impl(built, cases, tier):
-    return G.run_impl_multi(built, cases, tier)
+    """HYP cases have no implementation side (they evaluate the theorem's hypotheses on the
+    generated object): constant "1"; everything else goes to the harness of its schema."""
+    default = next(iter(built["exes"]))
+    real = [c for c in cases if not G.schema_of(c.line, default)[1].startswith("HYP ")]
+    out = iter(G.run_impl_multi(built, real, tier))
+    return ["1" if G.schema_of(c.line, default)[1].startswith("HYP ") else next(out) for c in cases]
 
 
 def pre(schema, default):
@@ -109,6 +114,17 @@ def gen_cases(rng, tier):
                     cs.append(Case(px + "ENC " + G.ser_msg(mt, hdr, b2, trl), "bodylength-%d" % target))
             if not thorough and len([c for c in cs if c.cls.startswith("bodylength")]) > 60:
                 break
+        # the hypotheses of c02_wellformed (wf_ctx of the message type, wf_msg, fresh) must hold for
+        # generated well-formed objects: message types with -F fields that lack the position bit
+        # are outside the theorem (see known finding unpositioned-order) and are skipped here
+        def positioned(owner):
+            return all(t.flags & 4 for t in meta.traits.get(owner, [])) and all(positioned(s) for s in meta.groups.get(owner, {}).values())
+        good = [mt for mt in types if positioned(mt)]
+        _state.setdefault("hyp_types", {})[schema] = (len(good), len(types))
+        for mt in good:
+            cs.append(Case(px + "HYP " + G.ser_msg(*gen.message(mt)), "hypotheses"))
+        for _ in range(300 if thorough else 100):
+            cs.append(Case(px + "HYP " + G.ser_msg(*gen.message(rng.choice(good))), "hypotheses"))
         # known-finding classes
         for _ in range(40 if thorough else 12):
             cs.append(Case(px + "ENC2 " + G.ser_msg(*gen.message()), "second-encode"))
@@ -133,6 +149,8 @@ def _spec_of(case):
 
 
 def nontrivial(case, r):
+    if r == "1":
+        return True
     if not r.startswith("OK "):
         return False
     hx = r.split(" ")[1]
@@ -176,6 +194,10 @@ def c_unpositioned(case, r, m):
     mt, hdr, body, trl = G.parse_msg(spec)
     return (_unpositioned_misordered(meta, mt, body) or _unpositioned_misordered(meta, "header", hdr)
             or _unpositioned_misordered(meta, "trailer", trl))
+
+
+def extra_evidence(ctx):
+    return {"hypotheses_hold_for_message_types": {k: "%d of %d" % v for k, v in _state.get("hyp_types", {}).items()}}
 
 
 CLASSIFIERS = {"second-encode": c_second_encode, "no-delimiter": c_no_delimiter, "unpositioned-order": c_unpositioned}
